@@ -1252,4 +1252,202 @@ Section Real.
     - intros k. rewrite A4, B4, C4. apply CF_select; exact Hlen.
   Qed.
 
+  (* ---- a bias that is inactive or does not apply forces contributes nothing ----------------------- *)
+  Definition mask1 (p q : nat) : list bool := repeat true p ++ false :: repeat true q.
+
+  Lemma select_mask1 {A} (pre : list A) c post :
+    select (mask1 (length pre) (length post)) (pre ++ c :: post) = pre ++ post /\
+    select (map negb (mask1 (length pre) (length post))) (pre ++ c :: post) = [c].
+  Proof.
+    unfold mask1. induction pre as [|x pre [IH1 IH2]]; cbn [length repeat app select map negb].
+    - split.
+      + induction post as [|y post IH]; cbn [length repeat select]; [reflexivity | rewrite IH; reflexivity].
+      + induction post as [|y post IH]; cbn [length repeat select map negb]; [reflexivity | exact IH].
+    - rewrite IH1, IH2. auto.
+  Qed.
+
+  Lemma mask1_length p q : length (mask1 p q) = (p + S q)%nat.
+  Proof. unfold mask1. rewrite app_length. cbn [length]. rewrite !repeat_length. reflexivity. Qed.
+
+  Lemma Forall3_drop3 {A B C} (P : A -> B -> Prop) l1 l2 (l3 : list C) :
+    Forall3 (fun a b _ => P a b) l1 l2 l3 -> Forall2 P l1 l2.
+  Proof. induction 1; constructor; assumption. Qed.
+
+  Lemma EN_one (b : bias) : EN [b] = if counts_energy efix b then b_energy b else 0.
+  Proof. unfold EN. cbn [map rsum]. lra. Qed.
+
+  Lemma CF_one_zero (b : bias) xs nv k : b_active b && b_apply b = false -> CF [b] xs nv k = 0.
+  Proof.
+    intros H. unfold CF. apply rsum_map_zero. intros i _. unfold VF, bforce. cbn [map rsum]. rewrite H. lra.
+  Qed.
+
+  Definition contributes_nothing (p : nat) (oAll oRest : @out R BS) : Prop :=
+    forall b, nth_error (o_biases oAll) p = Some b ->
+      (b_active b = false ->
+         o_energy oAll = o_energy oRest /\
+         forall k, coord_force Rops (o_vars oAll) k = coord_force Rops (o_vars oRest) k) /\
+      (b_apply b = false ->
+         (forall k, coord_force Rops (o_vars oAll) k = coord_force Rops (o_vars oRest) k) /\
+         (efix = true -> o_energy oAll = o_energy oRest)).
+
+  Theorem inactive_nothing it0 tsfs (pre : list (@bias_cfg R BS)) c post evs :
+    Forall2 (contributes_nothing (length pre))
+      (run_cfg Rops fixed efix it0 tsfs (pre ++ c :: post) evs)
+      (run_cfg Rops fixed efix it0 tsfs (pre ++ post) evs).
+  Proof.
+    set (m := mask1 (length pre) (length post)).
+    pose proof (run_cfg_closed it0 tsfs (pre ++ c :: post) evs) as HAB.
+    destruct (select_mask1 pre c post) as [M1 M2]. fold m in M1, M2.
+    pose proof (run_cfg_closed it0 tsfs (select m (pre ++ c :: post)) evs) as HA.
+    rewrite <- select_map, btrace_select in HA. rewrite M1 in HA.
+    pose proof (run_cfg_closed it0 tsfs (select (map negb m) (pre ++ c :: post)) evs) as HB.
+    rewrite <- select_map, btrace_select in HB. rewrite M2 in HB.
+    pose proof (btrace_lengths (length tsfs) evs it0 true (map (init_bias Rops) (pre ++ c :: post))) as HL.
+    apply (Forall3_drop3 _ _ _ (run_cfg Rops fixed efix it0 tsfs [c] evs)).
+    eapply (Forall3_from2 _ _ _ _ _ (sel_out m) (sel_out (map negb m))); [|exact HL|exact HAB|exact HA|exact HB].
+    intros a b0 c0 [[it bs] xs] Lx Pa Pb Pc. cbn [sel_out out_ok fst snd] in *.
+    destruct Pa as (A1 & A2 & A3 & A4), Pb as (B1 & B2 & B3 & B4).
+    rewrite map_length, app_length in Lx. cbn [length] in Lx.
+    assert (Hlen : length m = length bs) by (unfold m; rewrite mask1_length; lia).
+    intros b Hb. rewrite A2 in Hb.
+    destruct (nth_error_split bs (length pre) Hb) as (l1 & l2 & Ebs & El1).
+    assert (El2 : length l2 = length post).
+    { rewrite Ebs, app_length in Lx. cbn [length] in Lx. lia. }
+    assert (S2 : select (map negb m) bs = [b]).
+    { unfold m. rewrite Ebs, <- El1, <- El2. apply select_mask1. }
+    pose proof (EN_select m bs Hlen) as E1. rewrite S2, EN_one in E1.
+    assert (F1 : forall k, CF bs xs (length tsfs) k = CF (select m bs) xs (length tsfs) k + CF [b] xs (length tsfs) k).
+    { intros k. rewrite (CF_select m bs xs (length tsfs) k Hlen), S2. reflexivity. }
+    split.
+    - intros Hoff. split.
+      + rewrite A3, B3, E1. unfold counts_energy. rewrite Hoff. cbn [andb]. lra.
+      + intros k. rewrite A4, B4, F1, CF_one_zero; [lra | rewrite Hoff; reflexivity].
+    - intros Hna. split.
+      + intros k. rewrite A4, B4, F1, CF_one_zero; [lra | rewrite Hna; apply andb_false_r].
+      + intros He. rewrite A3, B3, E1. unfold counts_energy. rewrite Hna, He. cbn [negb orb].
+        rewrite andb_false_r. lra.
+  Qed.
+
+  (* ---- the awake schedule of one bias ------------------------------------------------------------------ *)
+  Definition S0 (b : bias) : Prop := b_active b = true /\ b_awake b = false /\ b_rc b = 0%Z.
+  Definition SA (b : bias) : Prop := b_active b = true /\ b_awake b = true /\ b_rc b = 1%Z.
+  Definition SS (b : bias) : Prop := b_active b = false /\ b_awake b = false /\ b_rc b = 0%Z.
+  Definition FS (b : bias) : Prop := S0 b \/ SA b \/ SS b.
+
+  Lemma wake_self_static it (b : bias) : same_static b (wake_self fixed it b).
+  Proof.
+    unfold wake_self, enable_awake_self, disable_awake_self, decr_active_self, disable_active_self, enable_active_self.
+    destruct b as [id tsf vars byp app upd st act rc aw e fs]. unfold same_static. cbn.
+    repeat match goal with |- context [if ?c then _ else _] => destruct c; cbn end; tauto.
+  Qed.
+
+  Lemma wake_self_on it (b : bias) :
+    FS b -> (1 <? b_tsf b)%Z = true -> on_schedule it (b_tsf b) = true -> SA (wake_self fixed it b).
+  Proof.
+    intros F Ht Hs. unfold wake_self. rewrite Ht, Hs.
+    unfold enable_awake_self, enable_active_self, SA.
+    destruct b as [id tsf vars byp app upd st act rc aw e fs]. unfold FS, S0, SA, SS in F. cbn in *.
+    destruct F as [(-> & -> & ->) | [(-> & -> & ->) | (-> & -> & ->)]]; cbn; auto.
+  Qed.
+
+  Lemma wake_self_off it (b : bias) :
+    fixed = true -> FS b -> (1 <? b_tsf b)%Z = true -> on_schedule it (b_tsf b) = false -> SS (wake_self fixed it b).
+  Proof.
+    intros Hf F Ht Hs. unfold wake_self. rewrite Ht, Hs, Hf.
+    unfold enable_awake_self, disable_awake_self, decr_active_self, disable_active_self, enable_active_self, SS.
+    destruct b as [id tsf vars byp app upd st act rc aw e fs]. unfold FS, S0, SA, SS in F. cbn in *.
+    destruct F as [(-> & -> & ->) | [(-> & -> & ->) | (-> & -> & ->)]]; cbn; auto.
+  Qed.
+
+  Lemma update_pure_flags it nv xs (b : bias) :
+    let b' := bias_update_pure it nv xs b in
+    same_static b b' /\ b_active b' = b_active b /\ b_awake b' = b_awake b /\ b_rc b' = b_rc b.
+  Proof.
+    cbn zeta. unfold bias_update_pure. destruct (b_active b) eqn:Ea.
+    - destruct (b_upd b (b_st b) it (map (fresh nv xs) (b_vars b))) as [s' [e fs]].
+      destruct b; unfold same_static; cbn in *; tauto.
+    - unfold same_static; tauto.
+  Qed.
+
+  (* a set of bias names that no script event touches *)
+  Definition untouched (Tid : nat -> Prop) (evs : list (@event R)) : Prop :=
+    forall id on, In (ESetActive id on) evs -> ~ Tid id.
+
+  Definition sched_ok (Tid : nat -> Prop) (t : sout) : Prop :=
+    forall b, In b (snd (fst t)) -> Tid (b_id b) -> (1 <? b_tsf b)%Z = true ->
+      b_active b = on_schedule (fst (fst t)) (b_tsf b).
+
+  Lemma bias_step_sched (Tid : nat -> Prop) it nv xs (bs : list bias) :
+    fixed = true ->
+    (forall b, In b bs -> Tid (b_id b) -> (1 <? b_tsf b)%Z = true -> FS b) ->
+    let bs' := map (bias_step it nv xs) bs in
+    (forall b, In b bs' -> Tid (b_id b) -> (1 <? b_tsf b)%Z = true -> FS b) /\
+    sched_ok Tid (it, bs', xs).
+  Proof.
+    intros Hf H. cbn zeta.
+    assert (G : forall b', In b' (map (bias_step it nv xs) bs) -> Tid (b_id b') -> (1 <? b_tsf b')%Z = true ->
+                FS b' /\ b_active b' = on_schedule it (b_tsf b')).
+    { intros b' Hb' Hid Ht. apply in_map_iff in Hb'. destruct Hb' as (b & <- & Hb).
+      unfold bias_step in *.
+      destruct (update_pure_flags it nv xs (wake_self fixed it b)) as (U1 & U2 & U3 & U4).
+      pose proof (wake_self_static it b) as W1.
+      destruct U1 as (I1 & T1 & _). destruct W1 as (I2 & T2 & _).
+      rewrite I1, I2 in Hid. rewrite T1, T2 in Ht. rewrite T1, T2.
+      specialize (H b Hb Hid Ht).
+      destruct (on_schedule it (b_tsf b)) eqn:Es.
+      - pose proof (wake_self_on it b H Ht Es) as (X1 & X2 & X3).
+        split; [|congruence]. right; left. unfold SA. rewrite U2, U3, U4. auto.
+      - pose proof (wake_self_off it b Hf H Ht Es) as (X1 & X2 & X3).
+        split; [|congruence]. right; right. unfold SS. rewrite U2, U3, U4. auto. }
+    split.
+    - intros b Hb Hid Ht. apply (G b Hb Hid Ht).
+    - intros b Hb Hid Ht. cbn [fst snd] in *. apply (G b Hb Hid Ht).
+  Qed.
+
+  Lemma btrace_sched (Tid : nat -> Prop) nv evs : fixed = true -> forall it first (bs : list bias),
+    untouched Tid evs ->
+    (forall b, In b bs -> Tid (b_id b) -> (1 <? b_tsf b)%Z = true -> FS b) ->
+    Forall (sched_ok Tid) (btrace nv (it, first, bs) evs).
+  Proof.
+    intros Hf. induction evs as [|ev r IH]; intros it first bs Hu H; [constructor|].
+    assert (Hu' : untouched Tid r) by (intros id on Hin; apply (Hu id on); right; exact Hin).
+    cbn [btrace]. destruct ev as [xs|xs|id on]; cbn [bstep app].
+    - destruct (bias_step_sched Tid (if first then it else (it + 1)%Z) nv xs bs Hf H) as [G1 G2].
+      constructor; [exact G2 | apply IH; assumption].
+    - destruct (bias_step_sched Tid it nv xs bs Hf H) as [G1 G2].
+      constructor; [exact G2 | apply IH; assumption].
+    - apply IH; [exact Hu'|].
+      intros b' Hb' Hid Ht. apply in_map_iff in Hb'. destruct Hb' as (b & <- & Hb).
+      unfold set_active_self in *. destruct (Nat.eqb (b_id b) id) eqn:E.
+      + apply Nat.eqb_eq in E. exfalso.
+        assert (Hid' : Tid id).
+        { destruct on; unfold enable_active_self, disable_active_self in Hid;
+            destruct b as [id0 tsf vars byp app upd st act rc aw e fs]; cbn in *;
+            repeat match type of Hid with context [if ?c then _ else _] => destruct c; cbn in Hid end; subst; exact Hid. }
+        apply (Hu id on (or_introl eq_refl) Hid').
+      + apply H; assumption.
+  Qed.
+
+  Lemma init_bias_FS (c : @bias_cfg R BS) : FS (init_bias Rops c).
+  Proof. left. unfold S0, init_bias. cbn. auto. Qed.
+
+  (* in any run (after the fix), a bias with factor n > 1 whose name no script event uses is active
+     exactly at the steps that are multiples of n *)
+  Theorem asleep_schedule (Tid : nat -> Prop) it0 tsfs (cfgs : list (@bias_cfg R BS)) evs :
+    fixed = true -> untouched Tid evs ->
+    Forall (fun o : @out R BS => forall b, In b (o_biases o) -> Tid (b_id b) -> (1 <? b_tsf b)%Z = true ->
+                                 b_active b = on_schedule (o_it o) (b_tsf b))
+           (run_cfg Rops fixed efix it0 tsfs cfgs evs).
+  Proof.
+    intros Hf Hu.
+    pose proof (run_cfg_closed it0 tsfs cfgs evs) as HC.
+    assert (HS : Forall (sched_ok Tid) (btrace (length tsfs) (it0, true, map (init_bias Rops) cfgs) evs)).
+    { apply btrace_sched; try assumption.
+      intros b Hb _ _. apply in_map_iff in Hb. destruct Hb as (c & <- & _). apply init_bias_FS. }
+    revert HS. induction HC as [|o t lo lt Ho Hrest IH]; intros HS; [constructor|].
+    inversion HS as [|? ? St Srest]; subst. constructor; [|apply IH; exact Srest].
+    destruct t as [[it bs] xs]. destruct Ho as (O1 & O2 & _). unfold sched_ok in St. cbn [fst snd] in St.
+    intros b Hb. rewrite O1. rewrite O2 in Hb. apply St; exact Hb.
+  Qed.
+
 End Real.
